@@ -4,6 +4,7 @@ import (
 	"fmt"
 	"go/token"
 	"go/types"
+	"sort"
 	"strconv"
 	"strings"
 
@@ -17,11 +18,11 @@ import (
 type EvKind int
 
 const (
-	EvFact EvKind = iota
-	EvCall        // non-inlined call (external, interface invoke, dynamic)
-	EvEnter       // inlined module call begins
-	EvExit        // inlined module call returns (Res)
-	EvStore       // store through a non-local pointer / field of a non-alloc root
+	EvFact  EvKind = iota
+	EvCall         // non-inlined call (external, interface invoke, dynamic)
+	EvEnter        // inlined module call begins
+	EvExit         // inlined module call returns (Res)
+	EvStore        // store through a non-local pointer / field of a non-alloc root
 	EvMapUpdate
 	EvMapDelete
 	EvDefer
@@ -113,6 +114,12 @@ type frame struct {
 	ret    func([]*Term)
 	depth  int
 	free   []*Term
+	// key: the chain of call-site instructions that leads to this activation.
+	// Activations reached through the same chain (a call inside a loop body) share
+	// one visit budget, so that extracting a loop body into a helper - or inlining
+	// it back - does not change which paths are enumerated (A10 counts block
+	// entries per path, not per activation).
+	key string
 }
 
 type ival struct {
@@ -122,21 +129,22 @@ type ival struct {
 }
 
 type engine struct {
-	w      *World
-	o      Opts
-	events []Event
-	trail  []func()
-	mem    map[string]*Term
-	facts  map[string]bool
-	bounds map[string]ival
-	nextID int
-	stack  []*frame
-	npaths int
-	nprune int
-	abort  error
-	visit  func(*Path) bool
-	stop   bool
-	curPos token.Pos
+	w          *World
+	o          Opts
+	events     []Event
+	trail      []func()
+	mem        map[string]*Term
+	facts      map[string]bool
+	bounds     map[string]ival
+	nextID     int
+	siteVisits map[string]map[*ssa.BasicBlock]int
+	stack      []*frame
+	npaths     int
+	nprune     int
+	abort      error
+	visit      func(*Path) bool
+	stop       bool
+	curPos     token.Pos
 }
 
 type emark struct{ trail, events, nextID int }
@@ -149,6 +157,20 @@ func (e *engine) undo(m emark) {
 	e.trail = e.trail[:m.trail]
 	e.events = e.events[:m.events]
 	e.nextID = m.nextID
+}
+
+// frameVisits: the visit counters shared by all activations with the same call-site chain.
+func (e *engine) frameVisits(parent *frame, site ssa.Instruction, k int) (string, map[*ssa.BasicBlock]int) {
+	key := fmt.Sprintf("%s/%p#%d", parent.key, site, k)
+	if e.siteVisits == nil {
+		e.siteVisits = map[string]map[*ssa.BasicBlock]int{}
+	}
+	m, ok := e.siteVisits[key]
+	if !ok {
+		m = map[*ssa.BasicBlock]int{}
+		e.siteVisits[key] = m
+	}
+	return key, m
 }
 
 func (e *engine) newID() int { e.nextID++; return e.nextID }
@@ -221,6 +243,52 @@ func Enumerate(w *World, fn *ssa.Function, o Opts, visit func(*Path) bool) (npat
 				p.RetVal = append(p.RetVal, e.load(r.Args[0], nil))
 			} else {
 				p.RetVal = append(p.RetVal, r)
+			}
+		}
+		// a non-constant boolean result (`return err == nil`, `return a && b`) stands for
+		// two behaviours as well: split on it, so that it enumerates like
+		// `if cond { return true }; return false`.
+		for i, r := range res {
+			if r == nil || r.Typ == nil || r.IsConst() {
+				continue
+			}
+			if b, ok := r.Typ.Underlying().(*types.Basic); !ok || b.Kind() != types.Bool {
+				continue
+			}
+			if i < fn.Signature.Results().Len() {
+				if rb, ok := fn.Signature.Results().At(i).Type().Underlying().(*types.Basic); !ok || rb.Kind() != types.Bool {
+					continue
+				}
+			}
+			for _, pol := range []bool{true, false} {
+				m := e.mark()
+				if e.assume(r, pol, nil, fr) {
+					res2 := append([]*Term(nil), res...)
+					res2[i] = boolTerm(pol)
+					fr.ret(res2)
+				}
+				e.undo(m)
+			}
+			return
+		}
+		// a tail-returned error (`return k.X.Set(..)`, `return resp, f(x)`) stands for two
+		// behaviours: split the path into the callee-succeeded and the callee-failed case,
+		// so that `return f(x)` and `if err := f(x); err != nil { return err }; return nil`
+		// enumerate the same paths.
+		if n := len(res); n > 0 && fn.Signature.Results().Len() == n && types.TypeString(fn.Signature.Results().At(n-1).Type(), nil) == "error" {
+			last := res[n-1]
+			if (last.Op == "call" || last.Op == "extract") && !nonNil(last) {
+				cond := binop(token.EQL, last, &Term{Op: "const", Name: "nil", Typ: last.Typ}, types.Typ[types.Bool])
+				if _, known := e.facts[cond.String()]; !known && !cond.IsConst() {
+					for _, pol := range []bool{true, false} {
+						m := e.mark()
+						if e.assume(cond, pol, nil, fr) {
+							e.finish(&Path{Ret: p.Ret, RetVal: p.RetVal})
+						}
+						e.undo(m)
+					}
+					return
+				}
 			}
 		}
 		e.finish(p)
@@ -727,6 +795,9 @@ func nonNil(t *Term) bool {
 			return len(t.Args) > 0 && nonNil(t.Args[0])
 		case t.Name == "fmt.Errorf" || t.Name == "errors.New":
 			return true
+		case strings.HasSuffix(t.Name, "status.Error") || strings.HasSuffix(t.Name, "status.Errorf"):
+			// grpc status errors: non-nil for every code but OK (never used with OK here)
+			return len(t.Args) > 0 && !strings.HasSuffix(t.Args[0].Key(), "codes.OK") && t.Args[0].Key() != "0"
 		}
 	}
 	return false
@@ -823,7 +894,9 @@ func (e *engine) assume(c *Term, pol bool, in ssa.Instruction, fr *frame) bool {
 	return true
 }
 
-// narrow maintains an integer interval for terms compared with constants.
+// narrow maintains an integer interval for terms compared with constants, and for
+// linear combinations of terms compared with each other (x < y, k < n-x, ...), so
+// that arithmetic contradictions prune a path just like syntactic ones.
 func (e *engine) narrow(atom *Term, pol bool) bool {
 	if atom.Op != "bin" || (atom.Name != "==" && atom.Name != "<") {
 		return true
@@ -837,17 +910,46 @@ func (e *engine) narrow(atom *Term, pol bool) bool {
 	} else if v, ok := a.Int(); ok && !b.IsConst() {
 		t, c, constLeft = b, v, true
 	} else {
-		return true
+		return e.narrowLin(atom, pol)
 	}
 	key := t.String()
+	var init ival
+	if isUnsigned(t.Typ) || (t.Op == "call" && t.Name == "builtin.len") {
+		init.lo, init.hasLo = 0, true
+	}
+	if t.Op == "call" && t.Name == "bytes.Compare" { // documented range {-1,0,1}
+		init.lo, init.hasLo, init.hi, init.hasHi = -1, true, 1, true
+	}
+	kind := ""
+	switch {
+	case atom.Name == "==" && pol:
+		kind = "eq"
+	case atom.Name == "==" && !pol:
+		kind = "ne"
+	case atom.Name == "<" && !constLeft && pol: // t < c
+		kind = "lt"
+	case atom.Name == "<" && !constLeft && !pol: // t >= c
+		kind = "ge"
+	case atom.Name == "<" && constLeft && pol: // c < t
+		kind = "gt"
+	case atom.Name == "<" && constLeft && !pol: // t <= c
+		kind = "le"
+	}
+	if !e.applyBound(key, init, kind, c) {
+		return false
+	}
+	// the same fact in linear form (t may itself be a sum / difference)
+	if t.Op == "bin" {
+		return e.narrowLin(atom, pol)
+	}
+	return true
+}
+
+// applyBound intersects the interval of key with (value kind c); false = empty.
+func (e *engine) applyBound(key string, init ival, kind string, c int64) bool {
 	iv, ok := e.bounds[key]
 	if !ok {
-		if isUnsigned(t.Typ) || (t.Op == "call" && t.Name == "builtin.len") {
-			iv.lo, iv.hasLo = 0, true
-		}
-		if t.Op == "call" && t.Name == "bytes.Compare" { // documented range {-1,0,1}
-			iv.lo, iv.hasLo, iv.hi, iv.hasHi = -1, true, 1, true
-		}
+		iv = init
 	}
 	old, had := iv, ok
 	iv.ne = append([]int64(nil), iv.ne...)
@@ -861,19 +963,19 @@ func (e *engine) narrow(atom *Term, pol bool) bool {
 			iv.hi, iv.hasHi = v, true
 		}
 	}
-	switch {
-	case atom.Name == "==" && pol:
+	switch kind {
+	case "eq":
 		setLo(c)
 		setHi(c)
-	case atom.Name == "==" && !pol:
+	case "ne":
 		iv.ne = append(iv.ne, c)
-	case atom.Name == "<" && !constLeft && pol: // t < c
+	case "lt":
 		setHi(c - 1)
-	case atom.Name == "<" && !constLeft && !pol: // t >= c
+	case "ge":
 		setLo(c)
-	case atom.Name == "<" && constLeft && pol: // c < t
+	case "gt":
 		setLo(c + 1)
-	case atom.Name == "<" && constLeft && !pol: // t <= c
+	case "le":
 		setHi(c)
 	}
 	// tighten against excluded points
@@ -902,6 +1004,74 @@ func (e *engine) narrow(atom *Term, pol bool) bool {
 		}
 	})
 	return true
+}
+
+// noWrap: for unsigned x - y, is y <= x established on the current path?  (Only then
+// may the difference be read as an integer difference.)
+func (e *engine) noWrap(x, y *Term) bool {
+	p := &Path{Events: e.events}
+	rel, n := p.Relation(len(e.events), func(t *Term) bool { return t.String() == strip(y).String() }, func(t *Term) bool { return t.String() == strip(x).String() })
+	return n > 0 && rel&rGT == 0
+}
+
+// narrowLin: (A == B) / (A < B) over integers as a bound on the linear form A-B.
+func (e *engine) narrowLin(atom *Term, pol bool) bool {
+	a, b := atom.Args[0], atom.Args[1]
+	intish := func(t *Term) bool {
+		if _, ok := t.Int(); ok {
+			return true
+		}
+		return t.Typ != nil && isIntType(t.Typ)
+	}
+	if !intish(a) || !intish(b) {
+		return true
+	}
+	d := linCtx(a, e.noWrap).add(linCtx(b, e.noWrap), -1) // A - B = v + c
+	kind := ""
+	switch {
+	case atom.Name == "==" && pol:
+		kind = "eq"
+	case atom.Name == "==" && !pol:
+		kind = "ne"
+	case atom.Name == "<" && pol:
+		kind = "lt"
+	default:
+		kind = "ge"
+	}
+	if d.isConst() {
+		switch kind {
+		case "eq":
+			return d.c == 0
+		case "ne":
+			return d.c != 0
+		case "lt":
+			return d.c < 0
+		default:
+			return d.c >= 0
+		}
+	}
+	// sign normalisation: leading coefficient positive
+	var ks []string
+	for k := range d.k {
+		ks = append(ks, k)
+	}
+	sort.Strings(ks)
+	if d.k[ks[0]] < 0 {
+		d = d.scale(-1)
+		switch kind {
+		case "lt": // -(v+c) < 0  <=>  v+c > 0
+			kind = "gt"
+		case "ge": // -(v+c) >= 0 <=>  v+c <= 0
+			kind = "le"
+		}
+	}
+	// (v + c) kind 0  <=>  v kind -c
+	v := linForm{k: d.k}
+	key := "lin:" + v.String()
+	if len(d.k) == 1 && d.k[ks[0]] == 1 {
+		key = ks[0] // a single term: share the interval narrow() keeps for it
+	}
+	return e.applyBound(key, ival{}, kind, -d.c)
 }
 
 // ---------------------------------------------------------------------------
@@ -1015,7 +1185,8 @@ func (e *engine) doCall(fr *frame, site ssa.Instruction, c *ssa.CallCommon, preF
 		}
 		callT := &Term{Op: "call", Name: name, Args: args, ID: e.newID(), Typ: resT, Site: site}
 		e.emit(Event{Kind: EvEnter, Call: callT, Instr: site, Fn: fr.fn, Depth: fr.depth, ArgVals: e.argVals(args)})
-		nf := &frame{fn: target, env: map[ssa.Value]*Term{}, visits: map[*ssa.BasicBlock]int{}, depth: fr.depth + 1, free: free}
+		fkey, fvis := e.frameVisits(fr, site, -1)
+		nf := &frame{fn: target, env: map[ssa.Value]*Term{}, visits: fvis, key: fkey, depth: fr.depth + 1, free: free}
 		for i, p := range target.Params {
 			if i < len(args) {
 				nf.env[p] = args[i]
@@ -1184,7 +1355,8 @@ func (e *engine) runCallbacks(fr *frame, site ssa.Instruction, callT *Term, args
 			e.o.OnInline(target)
 		}
 		e.emit(Event{Kind: EvCbBegin, Call: callT, Fun: a, Instr: site, Fn: fr.fn, Depth: fr.depth})
-		nf := &frame{fn: target, env: map[ssa.Value]*Term{}, visits: map[*ssa.BasicBlock]int{}, depth: fr.depth + 1, free: a.Args}
+		fkey, fvis := e.frameVisits(fr, site, kk)
+		nf := &frame{fn: target, env: map[ssa.Value]*Term{}, visits: fvis, key: fkey, depth: fr.depth + 1, free: a.Args}
 		for i, p := range target.Params {
 			nf.env[p] = &Term{Op: "opaque", Name: "cbarg" + strconv.Itoa(i), Args: []*Term{callT}, Typ: p.Type()}
 		}
@@ -1294,13 +1466,13 @@ var purePkgPrefixes = []string{
 }
 
 var impureExact = map[string]bool{
-	"(sdk.Context).CacheContext":           true,
-	"(*sdk.EventManager).EmitEvent":        true,
-	"(*sdk.EventManager).EmitEvents":       true,
-	"(sdk.EventManagerI).EmitEvent":        true,
-	"(sdk.EventManagerI).EmitEvents":       true,
-	"(*sdk.EventManager).EmitTypedEvent":   true,
-	"(sdk.EventManagerI).EmitTypedEvent":   true,
+	"(sdk.Context).CacheContext":         true,
+	"(*sdk.EventManager).EmitEvent":      true,
+	"(*sdk.EventManager).EmitEvents":     true,
+	"(sdk.EventManagerI).EmitEvent":      true,
+	"(sdk.EventManagerI).EmitEvents":     true,
+	"(*sdk.EventManager).EmitTypedEvent": true,
+	"(sdk.EventManagerI).EmitTypedEvent": true,
 }
 
 func isPure(name string) bool {
